@@ -309,7 +309,7 @@ Mutated mutate(const Config &cfg, const Line &valid) {
       int kind = sk[cfg.args[m.line[i].arg].slot];
       std::vector<std::string> bad = {"12x", "abc", "x7", "1.5.2", "--", "99999999999999999999", "9999999999"};
       if (kind == K_LONG) bad = {"12x", "abc", "99999999999999999999", "1e"};
-      if (isBits(kind)) bad = {"12x", "abc", "x7", "1.5.2", "1x1"};   // any non-negative number is a legal position
+      if (isBits(kind)) bad = {"12x", "abc", "x7", "1.5.2", "1x1", "-1", "-2", "-7", "-64"};   // any non-negative number is a legal position; a negative one is not (defects #45/#47)
       if (kind == K_DOUBLE) bad = {"abc", "1.5.2", "1,5x", "--1"};
       if (cfg.args[m.line[i].arg].spec == "-") bad = {"12x", "abc", "x7", "1.5.2", "9x9"};   // a bare word: nothing that looks like a key
       if (isScalar(kind)) { if (cfg.args[m.line[i].arg].spec != "-") bad.push_back(""); m.line[i].elems = {oneOf(bad)}; }
